@@ -36,7 +36,11 @@ func StringSliceToTextArray(values []string) (pgtype.TextArray, error) {
 }
 
 func MapStringAnyToJSONB(values map[string]any) (pgtype.JSONB, error) {
-	var jsonb pgtype.JSONB
+	var (
+		jsonb   pgtype.JSONB
+		encoded = values
+		copied  = false
+	)
 
 	for key, value := range values {
 		reflectValue := reflect.ValueOf(value)
@@ -44,13 +48,23 @@ func MapStringAnyToJSONB(values map[string]any) (pgtype.JSONB, error) {
 		if reflectValue.Kind() == reflect.Slice {
 			if reflectValue.IsNil() {
 				// Nil slices are not encoded by the sql driver to an empty array but rather as a JSON `null`. To avoid this, replace any
-				// nil slice reference with a new 0 capacity allocation.
-				values[key] = reflect.MakeSlice(reflectValue.Type(), 0, 0).Interface()
+				// nil slice reference with a new 0 capacity allocation. The map belongs to the caller, the replacement is made in a copy.
+				if !copied {
+					encoded = make(map[string]any, len(values))
+
+					for existingKey, existingValue := range values {
+						encoded[existingKey] = existingValue
+					}
+
+					copied = true
+				}
+
+				encoded[key] = reflect.MakeSlice(reflectValue.Type(), 0, 0).Interface()
 			}
 		}
 	}
 
-	return jsonb, jsonb.Set(values)
+	return jsonb, jsonb.Set(encoded)
 }
 
 func PropertiesToJSONB(properties *graph.Properties) (pgtype.JSONB, error) {
